@@ -3,6 +3,7 @@
    bytes rw accepted by the socket so far, the bytes lw that _packet_write counted as written so far, and the
    data od that will be offered next") and the two section hypotheses TR_none / tsend_spec, which are proved
    for the raw socket at the end of this file and for the WebSocket wrapper in WsWriterProofs.v. *)
+From Coq Require Import FinFun.
 From PahoV Require Import Base.Prelude Link.Writer.
 
 (* ------------------------------------------------------------------ list facts with Z indices *)
@@ -328,3 +329,477 @@ Proof.
   - rewrite Ht, Hw, app_nil_r. assumption.
   - rewrite Hw. eapply tsend_spec; eassumption.
 Qed.
+
+(* ------------------------------------------------------------------ one iteration of the loop *)
+Lemma acc_tail_facts ev1 a : nopub ev1 ->
+  wire_of (ev1 ++ [Acc a]) = wire_of ev1 /\ acc_of (ev1 ++ [Acc a]) = a
+  /\ setpub_ids (ev1 ++ [Acc a]) = [] /\ cbpub_ids (ev1 ++ [Acc a]) = []
+  /\ forall h rw lw, pubs_ok h rw lw (ev1 ++ [Acc a]).
+Proof.
+  intros Hn. rewrite wire_of_app, acc_of_app, setpub_ids_app, cbpub_ids_app.
+  rewrite (nopub_acc ev1), (nopub_setpub ev1), (nopub_cbpub ev1) by assumption.
+  cbn [wire_of acc_of setpub_ids cbpub_ids app]. rewrite !app_nil_r. repeat split.
+  intros h rw lw. apply pubs_ok_app. split; [apply nopub_pubs_ok; assumption|exact I].
+Qed.
+
+Lemma IB_requeue c p q t t' tr h done ev :
+  IB c (p :: q) t tr h done -> nopub ev ->
+  TR t' (wire_of tr ++ wire_of ev) (acc_of tr) (Some (offered p)) ->
+  IB c (p :: q) t' (tr ++ ev) h done.
+Proof.
+  intros [H1 H2 H3 H4 H5 H6 H7 H8] Hn HT. constructor; try assumption.
+  - rewrite acc_of_app, (nopub_acc ev), app_nil_r by assumption. assumption.
+  - rewrite setpub_ids_app, (nopub_setpub ev), app_nil_r by assumption. assumption.
+  - rewrite cbpub_ids_app, (nopub_cbpub ev), app_nil_r by assumption. assumption.
+  - rewrite wire_of_app, acc_of_app, (nopub_acc ev), app_nil_r by assumption. exact HT.
+  - apply pubs_ok_app. split; [assumption|]. apply nopub_pubs_ok; assumption.
+Qed.
+
+Lemma IB_partial c p q t t' tr h done ev1 n :
+  IB c (p :: q) t tr h done -> nopub ev1 -> 0 < n -> p_pos p + n < zlen (p_bytes p) ->
+  (forall od, TR t' (wire_of tr ++ wire_of ev1) (acc_of tr ++ ztake n (offered p)) od) ->
+  IB c (advance p n :: q) t' (tr ++ ev1 ++ [Acc (ztake n (offered p))]) h done.
+Proof.
+  intros [H1 H2 H3 H4 H5 H6 H7 H8] Hn Hpos Hlt HT.
+  destruct (acc_tail_facts ev1 (ztake n (offered p)) Hn) as (Ew & Ea & Es & Ec & Ep).
+  destruct H3 as [[Hp1 Hp2] Hq].
+  constructor; try assumption.
+  - rewrite acc_of_app, Ea, H2. cbn [sent_part advance p_pos p_bytes]. unfold offered.
+    rewrite <- app_assoc. f_equal. symmetry. apply ztake_add; lia.
+  - split; [|assumption]. unfold head_ok; cbn [advance p_pos p_bytes p_top]. lia.
+  - rewrite setpub_ids_app, Es, app_nil_r. assumption.
+  - rewrite cbpub_ids_app, Ec, app_nil_r. assumption.
+  - rewrite wire_of_app, acc_of_app, Ew, Ea. apply HT.
+  - apply pubs_ok_app. split; [assumption|apply Ep].
+Qed.
+
+Lemma pub0_events_facts c p evp raised : pub0_events c p = (evp, raised) ->
+  wire_of evp = [] /\ acc_of evp = []
+  /\ setpub_ids evp = (if is_pub0 p && negb (swallowed c p) then [p_id p] else [])
+  /\ cbpub_ids evp = (if c_onpub c && is_pub0 p then [p_id p] else [])
+  /\ forall h rw lw, (is_pub0 p = true -> pub_point h rw lw (p_id p)) -> pubs_ok h rw lw evp.
+Proof.
+  unfold pub0_events, swallowed.
+  destruct (is_pub0 p), (c_onpub c), (p_cbraise p), (c_suppress c); cbn [andb negb];
+    intros H; inv H; cbn [wire_of acc_of setpub_ids cbpub_ids pubs_ok];
+    (split; [reflexivity|]); (split; [reflexivity|]); (split; [reflexivity|]); (split; [reflexivity|]);
+    intros h rw lw Hp; try specialize (Hp eq_refl); tauto.
+Qed.
+
+Lemma IB_complete c p q t t' tr h done ev1 n evp raised :
+  IB c (p :: q) t tr h done -> nopub ev1 -> 0 < n -> p_pos p + n = zlen (p_bytes p) ->
+  (forall od, TR t' (wire_of tr ++ wire_of ev1) (acc_of tr ++ ztake n (offered p)) od) ->
+  pub0_events c (advance p n) = (evp, raised) ->
+  IB c q t' (tr ++ (ev1 ++ [Acc (ztake n (offered p))]) ++ evp) h (done ++ [reset p]).
+Proof.
+  intros [H1 H2 H3 H4 H5 H6 H7 H8] Hn Hpos Heq HT Hev.
+  destruct (acc_tail_facts ev1 (ztake n (offered p)) Hn) as (Ew & Ea & Es & Ec & Ep).
+  apply pub0_events_facts in Hev as (Pw & Pa & Ps & Pc & Pp).
+  change (is_pub0 (advance p n)) with (is_pub0 p) in *.
+  change (swallowed c (advance p n)) with (swallowed c p) in *.
+  change (p_id (advance p n)) with (p_id p) in *.
+  pose proof H3 as [[Hp1 Hp2] Hq].
+  assert (Hacc : acc_of tr ++ ztake n (offered p) = concat (map p_bytes (done ++ [reset p]))).
+  { rewrite H2, map_app, concat_app. cbn [sent_part map concat reset fresh_pkt p_bytes]. rewrite app_nil_r.
+    unfold offered. rewrite <- app_assoc. f_equal.
+    rewrite <- ztake_add by lia. apply ztake_all. lia. }
+  remember (ev1 ++ [Acc (ztake n (offered p))]) as ev2 eqn:Hev2. clear Hev2.
+  constructor.
+  - rewrite H1. cbn [map]. rewrite <- app_assoc. reflexivity.
+  - rewrite !acc_of_app, Ea, Pa, app_nil_r, (sent_part_fresh_tail p q H3), app_nil_r. exact Hacc.
+  - eapply q_ok_tail; eassumption.
+  - assumption.
+  - rewrite !setpub_ids_app, Es, Ps, H5, setpub_of_snoc. reflexivity.
+  - rewrite !cbpub_ids_app, Ec, Pc, H6, cbpub_of_snoc. reflexivity.
+  - rewrite !wire_of_app, !acc_of_app, Ew, Ea, Pw, Pa, !app_nil_r. apply HT.
+  - apply pubs_ok_app. split; [assumption|]. apply pubs_ok_app. split; [apply Ep|].
+    apply Pp. intros Hk. rewrite Ew, Ea, !app_nil_l.
+    assert (Hid : p_id p = Z.of_nat (length done)).
+    { change (p_id p) with (p_id (reset p)). eapply ids_ok_nth; [exact H4|]. rewrite H1. reflexivity. }
+    unfold pub_point. rewrite Hid, Nat2Z.id. split; [lia|]. split.
+    + exists (reset p). rewrite H1. cbn [map]. rewrite nth_error_app2, Nat.sub_diag by lia.
+      split; [reflexivity|]. split; [|exact Hid].
+      unfold is_pub0 in Hk. cbn [reset fresh_pkt p_kind]. destruct (p_kind p); try discriminate; reflexivity.
+    + split.
+      * rewrite Hacc. f_equal. f_equal. rewrite H1. cbn [map].
+        rewrite firstn_app, firstn_all2 by lia.
+        replace (S (length done) - length done)%nat with 1%nat by lia. reflexivity.
+      * exists t'. apply HT.
+Qed.
+
+Lemma zlen_lt_length (a b : list Z) : zlen a < zlen b -> (length a < length b)%nat.
+Proof. unfold zlen; lia. Qed.
+
+(* ------------------------------------------------------------------ _packet_write: invariant and termination *)
+Lemma pw_inv c : forall fuel st s st' ev rc s' tr h,
+  packet_write_fuel T tsend fuel c st s = (st', ev, rc, s') ->
+  Inv c (outq st) (tst st) tr h ->
+  (q_measure (outq st) < fuel)%nat ->
+  Inv c (outq st') (tst st') (tr ++ ev) h /\ rc <> RcOutOfFuel.
+Proof.
+  induction fuel as [|fuel IH]; intros st s st' ev rc s' tr h Hpw HI Hm; [lia|].
+  cbn [packet_write_fuel] in Hpw.
+  destruct (outq st) as [|p q] eqn:Hq.
+  { inv Hpw. rewrite app_nil_r, Hq. split; [assumption|discriminate]. }
+  destruct (sock_send T tsend (set_outq T st q) (offered p) s) as [[[r st1] ev1] s1] eqn:Hss.
+  pose proof (sock_send_facts _ _ _ _ _ _ _ Hss) as (Ho & _ & Hnp & _). cbn [set_outq outq] in Ho.
+  destruct HI as [done HI]. subst q.
+  pose proof (sock_send_TR _ _ _ _ _ _ _ _ _ Hss (ib_tr _ _ _ _ _ _ HI)) as HT.
+  pose proof (ib_q _ _ _ _ _ _ HI) as [[Hp1 Hp2] Hfr].
+  pose proof (offered_len p (conj Hp1 Hp2)) as Hol.
+  cbn [q_measure] in Hm. unfold pkt_measure in Hm.
+  destruct r as [n| | |];
+    try (inv Hpw; cbn [set_outq outq tst]; split;
+         [exists done; eapply IB_requeue; eassumption | discriminate]).
+  destruct HT as (Hn & HT1 & HT0). destruct (0 <? n) eqn:Hn0.
+  - apply Z.ltb_lt in Hn0. specialize (HT1 Hn0).
+    destruct (p_top (advance p n) =? 0) eqn:Htop.
+    + apply Z.eqb_eq in Htop. cbn [advance p_top] in Htop.
+      destruct (pub0_events c (advance p n)) as [evp raised] eqn:Hpe.
+      assert (Heq : p_pos p + n = zlen (p_bytes p)) by lia.
+      pose proof (IB_complete _ _ _ _ _ _ _ _ _ _ _ _ HI Hnp Hn0 Heq HT1 Hpe) as HI'.
+      destruct raised.
+      * inv Hpw. split; [exists (done ++ [reset p]); exact HI'|discriminate].
+      * destruct (is_disc (advance p n)).
+        -- destruct (sock_close T st1) as [st2 evc] eqn:Hsc. inv Hpw.
+           apply sock_close_facts in Hsc as (C1 & C2 & _ & C4 & C5).
+           rewrite C1, C2. split; [|discriminate]. exists (done ++ [reset p]).
+           match goal with |- IB _ _ _ ?t _ _ =>
+             replace t with ((tr ++ (ev1 ++ [Acc (ztake n (offered p))]) ++ evp) ++ ([CbDisconnect] ++ evc))
+               by (repeat rewrite <- app_assoc; reflexivity) end.
+           apply IB_nopub; [exact HI'| |].
+           ++ apply nopub_app; [repeat constructor|assumption].
+           ++ rewrite wire_of_app, C5. reflexivity.
+        -- destruct (packet_write_fuel T tsend fuel c st1 s1) as [[[st3 ev3] r3] s3] eqn:Hrec. inv Hpw.
+           apply (IH _ _ _ _ _ _ (tr ++ (ev1 ++ [Acc (ztake n (offered p))]) ++ evp) h) in Hrec.
+           ++ destruct Hrec as [Hr1 Hr2]. split; [|assumption].
+              match goal with |- Inv _ _ _ ?t _ =>
+                replace t with ((tr ++ (ev1 ++ [Acc (ztake n (offered p))]) ++ evp) ++ ev3)
+                  by (repeat rewrite <- app_assoc; reflexivity) end.
+              assumption.
+           ++ exists (done ++ [reset p]). exact HI'.
+           ++ lia.
+    + apply Z.eqb_neq in Htop. cbn [advance p_top] in Htop.
+      assert (Hlt : p_pos p + n < zlen (p_bytes p)) by lia.
+      pose proof (IB_partial _ _ _ _ _ _ _ _ _ _ HI Hnp Hn0 Hlt HT1) as HI'.
+      destruct (packet_write_fuel T tsend fuel c (set_outq T st1 (advance p n :: outq st1)) s1)
+        as [[[st3 ev3] r3] s3] eqn:Hrec. inv Hpw.
+      apply (IH _ _ _ _ _ _ (tr ++ ev1 ++ [Acc (ztake n (offered p))]) h) in Hrec.
+      * destruct Hrec as [Hr1 Hr2]. split; [|assumption].
+        match goal with |- Inv _ _ _ ?t _ =>
+          replace t with ((tr ++ ev1 ++ [Acc (ztake n (offered p))]) ++ ev3)
+            by (repeat rewrite <- app_assoc; reflexivity) end.
+        assumption.
+      * cbn [set_outq outq tst]. exists done. exact HI'.
+      * cbn [set_outq outq]. cbn [q_measure]. unfold pkt_measure.
+        assert ((length (offered (advance p n)) < length (offered p))%nat); [|lia].
+        apply zlen_lt_length. rewrite Hol.
+        rewrite (offered_len (advance p n)); cbn [advance p_pos p_bytes p_top]; [lia|].
+        unfold head_ok; cbn [advance p_pos p_bytes p_top]. lia.
+  - apply Z.ltb_ge in Hn0. assert (n = 0) by lia. subst n.
+    inv Hpw. cbn [set_outq outq tst]. split; [|discriminate].
+    exists done. eapply IB_requeue; try eassumption. apply HT0. reflexivity.
+Qed.
+
+(* ------------------------------------------------------------------ loop_write, _packet_queue, runs *)
+Lemma Inv_nopub c q t tr h ev : Inv c q t tr h -> nopub ev -> wire_of ev = [] -> Inv c q t (tr ++ ev) h.
+Proof. intros [done H] Hn Hw. exists done. apply IB_nopub; assumption. Qed.
+
+Definition asks (st : wstate T) : Prop := sock st = true -> outq st <> [] -> regw st = true.
+
+Lemma loop_write_inv c st s st' ev rc s' tr h :
+  loop_write T tsend c st s = (st', ev, rc, s') -> Inv c (outq st) (tst st) tr h ->
+  Inv c (outq st') (tst st') (tr ++ ev) h /\ rc <> RcOutOfFuel /\ (sock st = true -> asks st').
+Proof.
+  unfold loop_write. destruct (sock st) eqn:Hs; cbn [negb]; intros H HI.
+  2:{ inv H. rewrite app_nil_r. split; [assumption|]. split; [discriminate|]. discriminate. }
+  destruct (packet_write T tsend c st s) as [[[st1 ev1] r] s1] eqn:Hpw.
+  unfold packet_write in Hpw. eapply pw_inv in Hpw as [HI1 Hr]; [|eassumption|lia].
+  assert (Hmid : forall st2 ev2 r2,
+     (match r with
+      | RcAgain => (st1, [], RcSuccess)
+      | RcConnLost => let '(st', ev') := loop_rc_handle T st1 in (st', ev', RcConnLost)
+      | RcRaised => (st1, [], RcRaised)
+      | RcOutOfFuel => (st1, [], RcOutOfFuel)
+      | _ => (st1, [], RcSuccess)
+      end) = (st2, ev2, r2) ->
+     outq st2 = outq st1 /\ tst st2 = tst st1 /\ nopub ev2 /\ wire_of ev2 = [] /\ r2 <> RcOutOfFuel).
+  { intros st2 ev2 r2 Hm.
+    destruct r; try congruence;
+      try (inv Hm; repeat split; try constructor; discriminate).
+    unfold loop_rc_handle in Hm. destruct (sock_close T st1) as [sta eva] eqn:Hsc. inv Hm.
+    apply sock_close_facts in Hsc as (C1 & C2 & _ & C4 & C5).
+    repeat split; try assumption; try discriminate.
+    - apply nopub_app; [assumption|repeat constructor].
+    - rewrite wire_of_app, C5. reflexivity. }
+  destruct (match r with
+      | RcAgain => (st1, [], RcSuccess)
+      | RcConnLost => let '(st', ev') := loop_rc_handle T st1 in (st', ev', RcConnLost)
+      | RcRaised => (st1, [], RcRaised)
+      | RcOutOfFuel => (st1, [], RcOutOfFuel)
+      | _ => (st1, [], RcSuccess)
+      end) as [[st2 ev2] r2] eqn:Hm.
+  destruct (Hmid _ _ _ eq_refl) as (M1 & M2 & M3 & M4 & M5).
+  assert (Hfin : forall st3 ev3,
+     (if want_write st2 then call_reg_write T st2 else call_unreg_write T (sock st2) st2) = (st3, ev3) ->
+     outq st3 = outq st2 /\ tst st3 = tst st2 /\ nopub ev3 /\ wire_of ev3 = [] /\ asks st3).
+  { intros st3 ev3 Hf. unfold want_write in Hf. destruct (outq st2) as [|x q2] eqn:Hq2.
+    - apply call_unreg_write_facts in Hf as (F1 & F2 & F3 & F4 & F5).
+      repeat split; try assumption; try congruence; try (intros _ Hne; congruence).
+    - apply call_reg_write_facts in Hf as (F1 & F2 & F3 & F4 & F5 & F6).
+      repeat split; try assumption; try congruence; try (intros Hsk _; apply F6; congruence). }
+  destruct (if want_write st2 then call_reg_write T st2 else call_unreg_write T (sock st2) st2)
+    as [st3 ev3] eqn:Hf.
+  destruct (Hfin _ _ eq_refl) as (F1 & F2 & F3 & F4 & F5).
+  inv H. rewrite F1, F2, M1, M2. split; [|split; [assumption|intros _; assumption]].
+  replace (tr ++ ev1 ++ ev2 ++ ev3) with ((tr ++ ev1) ++ (ev2 ++ ev3)) by (repeat rewrite <- app_assoc; reflexivity).
+  apply Inv_nopub; [assumption|apply nopub_app; assumption|].
+  rewrite wire_of_app, M4, F4. reflexivity.
+Qed.
+
+Lemma Inv_enqueue c q t tr h b k r :
+  Inv c q t tr h ->
+  Inv c (q ++ [fresh_pkt (Z.of_nat (length h)) b k r]) t tr (h ++ [fresh_pkt (Z.of_nat (length h)) b k r]).
+Proof.
+  intros [done [H1 H2 H3 H4 H5 H6 H7 H8]]. exists done.
+  set (p := fresh_pkt (Z.of_nat (length h)) b k r).
+  constructor; try assumption.
+  - rewrite map_app. cbn [map]. unfold p at 2. rewrite reset_fresh_pkt. fold p. rewrite app_assoc, <- H1. reflexivity.
+  - rewrite H2. f_equal. destruct q; reflexivity.
+  - destruct q as [|x q]; cbn [app q_ok].
+    + split; [|constructor]. unfold head_ok, p; cbn. pose proof (zlen_nonneg b). lia.
+    + destruct H3 as [Hx Hq]. split; [assumption|]. apply Forall_app. split; [assumption|].
+      constructor; [|constructor]. split; reflexivity.
+  - apply ids_ok_snoc; [assumption|reflexivity].
+  - destruct q as [|x q]; cbn [app head_off] in *; [apply TR_none|]; assumption.
+  - apply pubs_ok_ext. assumption.
+Qed.
+
+Lemma enqueue_inv c in_cb st b k r s st' ev rc s' tr h :
+  enqueue T tsend c in_cb st (fresh_pkt (Z.of_nat (length h)) b k r) s = (st', ev, rc, s') ->
+  Inv c (outq st) (tst st) tr h -> asks st ->
+  Inv c (outq st') (tst st') (tr ++ ev) (h ++ [fresh_pkt (Z.of_nat (length h)) b k r])
+  /\ rc <> RcOutOfFuel /\ asks st'.
+Proof.
+  unfold enqueue. intros H HI Ha.
+  apply (Inv_enqueue _ _ _ _ _ b k r) in HI.
+  destruct (negb (c_ext c) && negb in_cb).
+  - pose proof (loop_write_inv _ _ _ _ _ _ _ _ _ H HI) as (L1 & L2 & L3).
+    split; [assumption|]. split; [assumption|].
+    cbn [set_outq sock] in L3. destruct (sock st) eqn:Hs; [apply L3; reflexivity|].
+    (* socket closed: loop_write returned at once *)
+    unfold loop_write in H. cbn [set_outq sock] in H. rewrite Hs in H. cbn [negb] in H. inv H.
+    intros Hsk. cbn [set_outq sock] in Hsk. congruence.
+  - destruct (call_reg_write T _) as [st2 ev2] eqn:Hc. inv H.
+    apply call_reg_write_facts in Hc as (C1 & C2 & C3 & C4 & C5 & C6). cbn [set_outq outq tst sock] in *.
+    rewrite C1, C2. split; [apply Inv_nopub; assumption|]. split; [discriminate|].
+    intros Hsk _. apply C6. congruence.
+Qed.
+
+Record RInv (c : cfg) (r : rstate T) : Prop := mkRInv {
+  ri_inv : Inv c (outq (r_st r)) (tst (r_st r)) (r_trace r) (r_hist r);
+  ri_asks : asks (r_st r);
+  ri_fuel : ~ In RcOutOfFuel (r_rcs r)
+}.
+
+Lemma step_inv c r o : RInv c r -> RInv c (step T tsend c r o).
+Proof.
+  intros [H1 H2 H3]. destruct o as [in_cb b k cbr s|s]; cbn [step].
+  - destruct (enqueue T tsend c in_cb (r_st r) _ s) as [[[st ev] rc] s'] eqn:He.
+    apply (enqueue_inv _ _ _ _ _ _ _ _ _ _ _ (r_trace r)) in He as (E1 & E2 & E3); try assumption.
+    constructor; cbn; try assumption.
+    intros Hin. apply in_app_or in Hin as [Hin|[Hin|[]]]; [contradiction|congruence].
+  - destruct (loop_write T tsend c (r_st r) s) as [[[st ev] rc] s'] eqn:He.
+    pose proof (loop_write_inv _ _ _ _ _ _ _ _ _ He H1) as (E1 & E2 & E3).
+    constructor; cbn; try assumption.
+    + destruct (sock (r_st r)) eqn:Hs; [apply E3; reflexivity|].
+      unfold loop_write in He. rewrite Hs in He. cbn [negb] in He. inv He. assumption.
+    + intros Hin. apply in_app_or in Hin as [Hin|[Hin|[]]]; [contradiction|congruence].
+Qed.
+
+Lemma run_from_inv c ops : forall r, RInv c r -> RInv c (fold_left (step T tsend c) ops r).
+Proof. induction ops as [|o ops IH]; intros r H; [assumption|]. cbn [fold_left]. apply IH, step_inv, H. Qed.
+
+Lemma init_inv c t0 : TR t0 [] [] None -> RInv c (init T t0).
+Proof.
+  intros H0. constructor; cbn.
+  - exists []. constructor; cbn; try reflexivity; try exact I; try assumption.
+    unfold cbpub_of. destruct (c_onpub c); reflexivity.
+  - unfold asks; cbn. intros _ Hne. exfalso; apply Hne; reflexivity.
+  - intros [].
+Qed.
+
+Theorem run_inv c t0 ops : TR t0 [] [] None -> RInv c (run T tsend c t0 ops).
+Proof. intros H. unfold run. apply run_from_inv, init_inv, H. Qed.
+
+(* ------------------------------------------------------------------ consequences, still generic *)
+Lemma q_ok_split q : q_ok q -> sent_part q ++ unsent_q q = concat (map p_bytes q).
+Proof.
+  destruct q as [|p q]; [reflexivity|]. intros [_ Hf].
+  unfold unsent_q. cbn [sent_part map concat]. rewrite app_assoc. unfold offered at 1.
+  rewrite ztake_zskip. f_equal.
+  induction Hf as [|x q Hx _ IH]; [reflexivity|]. cbn [map concat]. rewrite (fresh_offered x Hx), IH. reflexivity.
+Qed.
+
+Lemma map_bytes_reset q : map p_bytes (map reset q) = map p_bytes q.
+Proof. rewrite map_map. apply map_ext. reflexivity. Qed.
+
+Lemma IB_stream c q t tr h done : IB c q t tr h done -> acc_of tr ++ unsent_q q = concat (map p_bytes h).
+Proof.
+  intros [H1 H2 H3 _ _ _ _ _]. rewrite H2, H1, map_app, concat_app, map_bytes_reset, <- app_assoc.
+  f_equal. apply q_ok_split. assumption.
+Qed.
+
+Lemma ids_ok_NoDup h : ids_ok h -> NoDup (map p_id h).
+Proof.
+  unfold ids_ok. intros ->. apply FinFun.Injective_map_NoDup; [|apply seq_NoDup].
+  intros a b. apply Nat2Z.inj.
+Qed.
+
+Lemma NoDup_map_filter {A B} (f : A -> B) (g : A -> bool) l : NoDup (map f l) -> NoDup (map f (filter g l)).
+Proof.
+  induction l as [|x l IH]; cbn [map filter]; intros H; [constructor|].
+  inversion H as [|? ? Hx Hl]; subst. destruct (g x); [|apply IH; assumption].
+  cbn [map]. constructor; [|apply IH; assumption].
+  intros Hin. apply Hx. apply in_map_iff in Hin as (y & Hy & Hin). apply filter_In in Hin as [Hin _].
+  apply in_map_iff. exists y. split; assumption.
+Qed.
+
+Lemma NoDup_app_l {A} (a b : list A) : NoDup (a ++ b) -> NoDup a.
+Proof.
+  induction a as [|x a IH]; cbn [app]; intros H; [constructor|].
+  inversion H as [|? ? Hx Hl]; subst. constructor; [|apply IH; assumption].
+  intros Hin. apply Hx. apply in_or_app. left. assumption.
+Qed.
+
+Lemma IB_once c q t tr h done : IB c q t tr h done ->
+  NoDup (setpub_ids tr) /\ NoDup (cbpub_ids tr).
+Proof.
+  intros [H1 _ _ H4 H5 H6 _ _]. apply ids_ok_NoDup in H4. rewrite H1, map_app in H4.
+  apply NoDup_app_l in H4. rewrite H5, H6. split.
+  - apply NoDup_map_filter. assumption.
+  - unfold cbpub_of. destruct (c_onpub c); [apply NoDup_map_filter; assumption|constructor].
+Qed.
+
+Lemma pubs_ok_split h tr1 e tr2 i :
+  pubs_ok h [] [] (tr1 ++ e :: tr2) -> e = CbPublish i \/ e = SetPublished i ->
+  pub_point h (wire_of tr1) (acc_of tr1) i.
+Proof.
+  intros H He. apply pubs_ok_app in H as [_ H]. cbn [app] in H.
+  destruct He as [-> | ->]; cbn [pubs_ok] in H; apply H.
+Qed.
+
+End GenericProofs.
+
+(* ================================================================== the raw socket *)
+Definition raw_TR (t : unit) (rw lw : list Z) (od : option (list Z)) : Prop := rw = lw.
+
+Lemma raw_TR_none t rw lw : raw_TR t rw lw None -> forall od, raw_TR t rw lw od.
+Proof. intros H od; exact H. Qed.
+
+Lemma raw_send_spec t rw lw d s r t' raw s' :
+  raw_TR t rw lw (Some d) -> raw_send t d s = (r, t', raw, s') ->
+  match r with
+  | SWrote n => 0 <= n <= zlen d
+                /\ (0 < n -> forall od, raw_TR t' (rw ++ raw) (lw ++ ztake n d) od)
+                /\ (n = 0 -> raw_TR t' (rw ++ raw) lw (Some d))
+  | _ => raw_TR t' (rw ++ raw) lw (Some d)
+  end.
+Proof.
+  unfold raw_TR, raw_send. intros -> H.
+  destruct (next_outcome (zlen d) s) as [o s0]. destruct o; inv H; try (rewrite app_nil_r; reflexivity).
+  pose proof (clip_range k (zlen d) (zlen_nonneg d)) as Hc.
+  split; [assumption|]. split; [reflexivity|]. intros ->. rewrite ztake_0, app_nil_r. reflexivity.
+Qed.
+
+Definition raw_RInv := RInv unit raw_TR.
+
+Lemma raw_run_inv c ops : raw_RInv c (raw_run c ops).
+Proof. apply (run_inv unit raw_send raw_TR raw_TR_none raw_send_spec). reflexivity. Qed.
+
+(* the history is determined by the operations: the i-th enqueued packet gets id i *)
+Fixpoint hist_from (n : nat) (ops : list op) : list opkt :=
+  match ops with
+  | [] => []
+  | OEnq _ b k r _ :: t => fresh_pkt (Z.of_nat n) b k r :: hist_from (S n) t
+  | OWrite _ :: t => hist_from n t
+  end.
+Definition hist_of (ops : list op) : list opkt := hist_from 0 ops.
+
+Fixpoint enq_bytes (ops : list op) : list (list Z) :=
+  match ops with
+  | [] => []
+  | OEnq _ b _ _ _ :: t => b :: enq_bytes t
+  | OWrite _ :: t => enq_bytes t
+  end.
+
+Lemma hist_from_bytes ops : forall n, map p_bytes (hist_from n ops) = enq_bytes ops.
+Proof. induction ops as [|[? b ? ? ?|?] ops IH]; intros n; cbn [hist_from enq_bytes map]; [reflexivity| |apply IH]. rewrite IH. reflexivity. Qed.
+
+Lemma run_from_hist T tsend c ops : forall r : rstate T,
+  r_hist (fold_left (step T tsend c) ops r) = r_hist r ++ hist_from (length (r_hist r)) ops.
+Proof.
+  induction ops as [|o ops IH]; intros r; cbn [fold_left hist_from]; [now rewrite app_nil_r|].
+  rewrite IH. destruct o as [in_cb b k cbr s|s]; cbn [step].
+  - destruct (enqueue T tsend c in_cb (r_st r) _ s) as [[[st ev] rc] s']. cbn [r_hist].
+    rewrite app_length, <- app_assoc. cbn [length app]. rewrite Nat.add_1_r. reflexivity.
+  - destruct (loop_write T tsend c (r_st r) s) as [[[st ev] rc] s']. reflexivity.
+Qed.
+
+Lemma run_hist T tsend c t0 ops : r_hist (run T tsend c t0 ops) = hist_of ops.
+Proof. unfold run. rewrite run_from_hist. reflexivity. Qed.
+
+(* ------------------------------------------------------------------ C06 on the raw socket *)
+Lemma raw_stream c ops :
+  wire_of (r_trace (raw_run c ops)) ++ unsent (r_st (raw_run c ops)) = concat (enq_bytes ops).
+Proof.
+  destruct (raw_run_inv c ops) as [[done HI] _ _].
+  pose proof (IB_stream _ _ _ _ _ _ _ _ HI) as Hs. pose proof (ib_tr _ _ _ _ _ _ _ _ HI) as Ht.
+  unfold raw_TR in Ht. unfold unsent. rewrite Ht, Hs. unfold raw_run. rewrite run_hist.
+  unfold hist_of. rewrite hist_from_bytes. reflexivity.
+Qed.
+
+Lemma raw_qos0_published c ops tr1 e tr2 i :
+  r_trace (raw_run c ops) = tr1 ++ e :: tr2 -> e = CbPublish i \/ e = SetPublished i ->
+  0 <= i
+  /\ (exists p, nth_error (hist_of ops) (Z.to_nat i) = Some p /\ p_kind p = KPub0 /\ p_id p = i)
+  /\ wire_of tr1 = concat (firstn (S (Z.to_nat i)) (enq_bytes ops)).
+Proof.
+  intros Htr He. destruct (raw_run_inv c ops) as [[done HI] _ _].
+  pose proof (ib_pubs _ _ _ _ _ _ _ _ HI) as Hp. rewrite Htr in Hp.
+  apply (pubs_ok_split unit raw_TR _ _ _ _ i) in Hp; [|assumption].
+  destruct Hp as (H0 & Hex & Hl & (t & Ht)). unfold raw_TR in Ht.
+  unfold raw_run in Hex, Hl. rewrite run_hist in Hex, Hl.
+  split; [assumption|]. split; [assumption|]. rewrite Ht, Hl.
+  unfold hist_of. rewrite <- firstn_map, hist_from_bytes. reflexivity.
+Qed.
+
+Lemma raw_qos0_once c ops :
+  let r := raw_run c ops in
+  NoDup (setpub_ids (r_trace r)) /\ NoDup (cbpub_ids (r_trace r))
+  /\ exists done,
+       hist_of ops = done ++ map reset (outq (r_st r))
+       /\ wire_of (r_trace r) = concat (map p_bytes done) ++ sent_part (outq (r_st r))
+       /\ setpub_ids (r_trace r) = setpub_of c done
+       /\ cbpub_ids (r_trace r) = cbpub_of c done.
+Proof.
+  cbn zeta. destruct (raw_run_inv c ops) as [[done HI] _ _].
+  destruct (IB_once _ _ _ _ _ _ _ _ HI) as [N1 N2]. split; [assumption|]. split; [assumption|].
+  exists done. pose proof HI as [H1 H2 _ _ H5 H6 H7 _]. unfold raw_TR in H7.
+  unfold raw_run in H1. rewrite run_hist in H1. rewrite H7. repeat split; assumption.
+Qed.
+
+Lemma unsent_want_write {T} (st : wstate T) : unsent st <> [] -> want_write st = true.
+Proof. unfold unsent, want_write. destruct (outq st); [intros H; exfalso; apply H; reflexivity|reflexivity]. Qed.
+
+Lemma raw_want_write c ops :
+  let st := r_st (raw_run c ops) in
+  unsent st <> [] -> want_write st = true /\ (sock st = true -> regw st = true).
+Proof.
+  cbn zeta. intros H. split; [apply unsent_want_write; assumption|].
+  destruct (raw_run_inv c ops) as [_ Ha _]. intros Hs. apply Ha; [assumption|].
+  intros Hq. apply H. unfold unsent. rewrite Hq. reflexivity.
+Qed.
+
+Lemma raw_terminates c ops : ~ In RcOutOfFuel (r_rcs (raw_run c ops)).
+Proof. apply (raw_run_inv c ops). Qed.
